@@ -5,7 +5,7 @@ cd "$(dirname "$0")/.." || exit 2
 mkdir -p out
 for id in "$@"; do
   S=$(date +%s)
-  timeout 3000 ./check $id $TIER > out/run_$id.log 2>&1; RC=$?
+  timeout ${TMO:-3000} ./check $id $TIER > out/run_$id.log 2>&1; RC=$?
   E=$(date +%s)
   echo "$id rc=$RC $((E-S))s $(grep -c '^harness' out/run_$id.log) harnesses; $(grep '^OK\|^INCONCLUSIVE\|^VIOLATION' out/run_$id.log | head -3 | tr '\n' '|' | cut -c1-300)"
 done
